@@ -572,7 +572,7 @@ pub fn run(ctx: &Ctx) -> i32 {
     report.rule = "72 decoders (55 struct types, 17 reply enums). (i) exhaustive: every input of length <= 2 and cf,cf,len,body for every body of length <= 2; (ii) corpus of reference encodings of canonical values (>= 8 per type) + the repository's captured packets: every truncation and every single-byte substitution (256 values per offset; quick: offsets < 96 of a seed-dependent sample of 128 packets), each through the packet's own decoder and the reply enums; (iii) structure-aware random mutants of the reference chunk trees (length-prefix forms 81/82/82xx/FF/too long/too short, tag splices, BCD digit overflow, F nibbles, calendar values month 0-19 day 0-39 hour 0-29, duplicated/dropped groups, cuts inside containers) and large bodies up to 65535 bytes; (iv) the stream reader (PacketTransport::read_packet and the *_with_ack operations) over hostile byte streams: every extended header FF lo hi for all 65536 announced lengths with the stream ending behind the header / inside the body / (boundary lengths and a stride) behind the complete body, every short header likewise, random streams - a packet or an error, never a panic; (v) BER long forms of 1..126 length bytes (zero / non-zero bytes above the low 1, 2, 4, 8, 9, 16 bytes, all FF, random) given to the length parser: an error or exactly the number written, never a wrapped one. Non-trivial = input of >= 1 byte; distinct by hash of (decoder, input) for random parts, by construction for enumerated parts.".into();
     report.exhaustive = Some(false);
     report.assumptions = vec![
-        "allocation bound judged: peak live bytes during one decode <= 256 x input length + 256 KiB".into(),
+        "allocation bound judged: peak live bytes during one decode (Debug rendering of the result included) <= 64 x input length + 16 KiB".into(),
         "no progress = one decode call still running after 10 s, twice (second time alone in a fresh process); a single overrun is inconclusive".into(),
         "debug/release differential: the plain release build of the same harness executes the identical workload; digests of Ok(Debug, remainder) | Err(variant) are compared input by input".into(),
     ];
@@ -628,7 +628,9 @@ pub fn run(ctx: &Ctx) -> i32 {
                 }
             };
             // allocation monitor
-            let bound = 256 * input.len() + (256 << 10);
+            // measured on the unchanged tree: at most ~14 KB and at most 17 x the input (Debug rendering of the decoded
+            // value included); the bound leaves a factor of four and still sees a 16-bit length turned into a reservation
+            let bound = 64 * input.len() + (16 << 10);
             if peak > bound {
                 r.violation(&format!("{}: allocation out of proportion", decoder_name(d)), &format!("peak {peak} live bytes while decoding {} input bytes (bound {bound})", input.len()), case());
             }
